@@ -62,7 +62,30 @@ fn model_hash(m: &GenModel) -> u64 {
 /// polls the clock every 1000 iterations has gone round at least ~10^5 times on a model
 /// with at most a few hundred bases.
 pub fn read_budget(m: &GenModel) -> u64 {
+    if m.int_points() > 4096 {
+        // deep-search family (hundreds of thousands of nodes by construction, no free
+        // variables): bounded generously, two reads per node and more
+        return 400_000_000;
+    }
     300 + 8 * m.int_points().min(4096)
+}
+
+/// One unit in `DEEP_RATE` explores a deep search: a planted subset-sum feasibility model
+/// with 20-22 Booleans and weights of the order 2^n, on which microlp needs 10^4 - 10^6
+/// branch & bound nodes before the first (and only) integer-feasible point. Decided exactly
+/// by Gray-code enumeration. This is how the simulator reaches behaviour that depends on
+/// the amount of search work rather than on the clock.
+const DEEP_RATE: u64 = 2_000;
+
+fn maybe_deep_model(rng: &mut Rng) -> Option<GenModel> {
+    if !rng.chance(1, DEEP_RATE) {
+        return None;
+    }
+    let n = *rng.pick(&[20usize, 21, 22]);
+    let planted = rng.chance(7, 8);
+    // an infeasible instance must be exhausted: keep it smaller
+    let n = if planted { n } else { 16 };
+    Some(generate::gen_subset_sum(rng, n, 1, planted))
 }
 
 const LIMIT_PALETTE: [LimitSpec; 7] = [
@@ -182,8 +205,14 @@ fn phase_label(m: &GenModel, truth: Verdict, direct: &solvers::DirectRun, res: &
 pub fn explore_c15(unit_seed: u64, tier: Tier) -> UnitReport {
     let mut rep = UnitReport::default();
     let mut rng = Rng::new(unit_seed);
+    let deep = maybe_deep_model(&mut rng);
     let lim = c15_limits(tier, &mut rng);
     let (fam, mut m) = generate::gen_model(&mut rng, &C15_WEIGHTS, &lim);
+    let is_deep = deep.is_some();
+    let fam_name = if is_deep { "deep-search(subset-sum)" } else { fam.name() };
+    if let Some(d) = deep {
+        m = d;
+    }
     let front = if rng.chance(1, 4) {
         Entry::BuilderMicrolp
     } else {
@@ -203,7 +232,7 @@ pub fn explore_c15(unit_seed: u64, tier: Tier) -> UnitReport {
     let truth = truth_of(&m);
     let mh = model_hash(&m);
     let budget = read_budget(&m);
-    rep.count(&format!("family:{}", fam.name()));
+    rep.count(&format!("family:{fam_name}"));
     rep.count(&format!("front-door:{}", front.name()));
     rep.count(&format!("gap:{:?}", gap));
     rep.count(&format!("truth:{}", truth.tag()));
@@ -287,8 +316,18 @@ pub fn explore_c15(unit_seed: u64, tier: Tier) -> UnitReport {
 
     // 2. every interruption instant
     // a run that never terminates spins inside one loop: only the first reads differ
-    let ks = if no_progress {
+    let ks: Vec<u64> = if no_progress {
         (1..=24).collect()
+    } else if is_deep {
+        // a run interrupted at read k costs k reads of search: 24 instants, denser early
+        let mut ks: Vec<u64> = (1..=6).collect();
+        for i in 1..=8u64 {
+            ks.push((n_reads * i * i / 64).max(7));
+        }
+        ks.push(n_reads + 1);
+        ks.sort();
+        ks.dedup();
+        ks
     } else {
         ks_to_enumerate(n_reads.min(budget))
     };
@@ -301,7 +340,7 @@ pub fn explore_c15(unit_seed: u64, tier: Tier) -> UnitReport {
             sched: Sched::ExpireAt { k: *k },
             budget: budget + 64,
         };
-        run_one(&mut rep, cfg, true);
+        run_one(&mut rep, cfg, !is_deep);
     }
     rep.add("expire-instants-enumerated", ks.len() as u64);
 
@@ -356,10 +395,10 @@ pub fn explore_c15(unit_seed: u64, tier: Tier) -> UnitReport {
         budget: budget + 64,
     });
     for cfg in others {
-        if no_progress && cfg.limit != (LimitSpec::Dur { secs: 0, nanos: 0 }) {
+        if (no_progress || is_deep) && cfg.limit != (LimitSpec::Dur { secs: 0, nanos: 0 }) {
             continue;
         }
-        let res = run_one(&mut rep, cfg, true);
+        let res = run_one(&mut rep, cfg, !is_deep);
         // abstraction check: the outcome depends only on the first read that saw the
         // deadline passed
         let reference = match res.clock.first_expired_read {
@@ -410,7 +449,7 @@ pub fn explore_c15(unit_seed: u64, tier: Tier) -> UnitReport {
     drop(run_one);
     rep.sample = Some(json!({
         "model": m.to_string(),
-        "family": fam.name(),
+        "family": fam_name,
         "front_door": front.name(),
         "gap": format!("{:?}", gap),
         "exact_truth": match truth { Verdict::Optimal(q) => format!("optimum {q}"), v => v.tag().to_string() },
@@ -531,11 +570,16 @@ pub fn c0405_runs(m: &GenModel, rng: &mut Rng, rep: &mut UnitReport) -> Vec<RunC
 pub fn explore_c0405(prop: &str, unit_seed: u64, tier: Tier) -> UnitReport {
     let mut rep = UnitReport::default();
     let mut rng = Rng::new(unit_seed);
+    let deep = maybe_deep_model(&mut rng);
     let lim = c0405_limits(tier, &mut rng);
-    let (fam, m) = generate::gen_model(&mut rng, &C0405_WEIGHTS, &lim);
+    let (fam, mut m) = generate::gen_model(&mut rng, &C0405_WEIGHTS, &lim);
+    let fam_name = if deep.is_some() { "deep-search(subset-sum)" } else { fam.name() };
+    if let Some(d) = deep {
+        m = d;
+    }
     let truth = truth_of(&m);
     let mh = model_hash(&m);
-    rep.count(&format!("family:{}", fam.name()));
+    rep.count(&format!("family:{fam_name}"));
     rep.count(&format!("truth:{}", truth.tag()));
     rep.mix(&format!("{mh:x}"));
     let runs = c0405_runs(&m, &mut rng, &mut rep);
@@ -580,7 +624,7 @@ pub fn explore_c0405(prop: &str, unit_seed: u64, tier: Tier) -> UnitReport {
     }
     rep.sample = Some(json!({
         "model": m.to_string(),
-        "family": fam.name(),
+        "family": fam_name,
         "exact_truth": match truth { Verdict::Optimal(q) => format!("optimum {q}"), v => v.tag().to_string() },
         "runs": case.runs.iter().zip(&out.results).map(|(c, r)| format!("{} clock={:?} limit={:?} -> {}", c.entry.name(), c.sched, c.limit, r.outcome.tag())).collect::<Vec<_>>(),
     }));
